@@ -65,6 +65,14 @@ Proof.
   rewrite mc_fetch_ok by assumption. reflexivity.
 Qed.
 
+Lemma compile_core_not_ack : forall opc nodec labels iei iev mc m vec,
+  c_obs (compile_core opc nodec labels iei iev mc m vec) <> OAck.
+Proof.
+  intros. unfold compile_core.
+  destruct (edge_phase _ _ _ _ _ _ _) as [circ iei'].
+  destruct (forallb _ _); cbn; discriminate.
+Qed.
+
 Lemma mc_ok_nil : mc_ok [].
 Proof. intros k m []. Qed.
 
@@ -131,7 +139,7 @@ Proof.
     apply caches_clean_fields in H1 as (A & B & C & D & E & F).
     unfold proj. rewrite A, B, C, D, E, F. unfold template_clean in H2. cbn.
     destruct (match template_cache g with Some e => tc_kA e | None => None end); [discriminate|reflexivity].
-  - intros H. unfold proj in H. cbn in H. inversion H as [[A B C D E F T]].
+  - intros H. unfold proj in H. cbn in H. injection H as A B C D E F T.
     unfold clean, caches_clean, template_clean. rewrite A, B, C, D, E, F, T. reflexivity.
 Qed.
 
@@ -203,7 +211,9 @@ Theorem compile_clear_resets : forall g m vec inpl,
   caches_clean (fst (step g (Compile m vec true inpl))) = true.
 Proof.
   intros g m vec inpl H. cbn [step new_obj] in *. unfold compile_obj in *.
-  destruct (c_obs _) eqn:E; cbn in *; try reflexivity. exfalso. eapply H. reflexivity.
+  destruct (c_obs _) eqn:E; cbn in *; try reflexivity.
+  - exfalso. eapply H. reflexivity.
+  - exfalso. eapply compile_core_not_ack. exact E.
 Qed.
 
 (* ------------------------------------------------------------------ frame: which components a step can write *)
@@ -218,7 +228,7 @@ Qed.
 (* a compilation never touches the template cache; it registers exactly one new circuit object *)
 Theorem compile_frame : forall g m vec clr inpl,
   let g' := fst (step g (Compile m vec clr inpl)) in
-  template_cache g' = template_cache g /\ handles g' = handles g ++ [nobj g] /\ nobj g' = S (nobj g).
+  template_cache g' = template_cache g /\ handles g' = (handles g ++ [nobj g])%list /\ nobj g' = S (nobj g).
 Proof.
   intros. subst g'. cbn [step new_obj].
   destruct (compile_obj_frame (push_handle (nobj g)
@@ -258,7 +268,8 @@ Lemma compile_obj_clean : forall g o m vec, is_err (snd (compile_obj g o m vec t
   caches_clean (fst (compile_obj g o m vec true)) = true /\
   template_cache (fst (compile_obj g o m vec true)) = template_cache g.
 Proof.
-  intros g o m vec. unfold compile_obj. destruct (c_obs _); cbn; intros H; try discriminate; auto.
+  intros g o m vec. unfold compile_obj. destruct (c_obs _) eqn:E; cbn; intros H; try discriminate; auto.
+  exfalso. eapply compile_core_not_ack. exact E.
 Qed.
 
 Lemma from_yaml_caches : forall g, caches_clean (fst (from_yaml g)) = caches_clean g /\
@@ -301,10 +312,9 @@ Proof.
       rewrite F4; [reflexivity|]. apply Ht. exact E.
     + cbn [step] in *. destruct (from_yaml_caches g) as (F1 & F2 & F3 & F4).
       destruct (from_yaml g) as [g1 e]. cbn [fst snd] in *.
-      eapply IH with (tmut := true); eauto. discriminate.
+      eapply IH with (tmut := true); eauto; try discriminate.
     + cbn [step] in *. destruct (handle g hh) as [ob|]; [destruct (has_ir g ob)|]; cbn [fst] in *;
         try (eapply IH; eauto; fail).
-      eapply IH; eauto.
     + cbn [step] in *.
       assert (K : clean (fst (match handle g hh with
                   | Some ob => if has_ir g ob then (cfc true true (set_ir ob false (clear_caches g)), OAck) else (cfc true true g, OAck)
